@@ -884,7 +884,14 @@ class TextXVisitor(RRELVisitor):
                 elif repeat_op == "+":
                     rule = OneOrMore(nodes=[expr])
                 else:
-                    rule = UnorderedGroup(nodes=expr.nodes)
+                    # Elements of a parenthesized sequence or choice are
+                    # matched in any order. Any other operand (a single
+                    # assignment, match, rule reference or repetition) is
+                    # the only element of the group.
+                    if isinstance(expr, Sequence) and not expr.root:
+                        rule = UnorderedGroup(nodes=expr.nodes)
+                    else:
+                        rule = UnorderedGroup(nodes=[expr])
 
                 if modifiers:
                     modifiers, position = modifiers
